@@ -5,8 +5,8 @@ worktree: (i) demo passes without the change, (ii) with the change the crate bui
 meta.json). Scratch worktree is removed afterwards."""
 import json, os, shutil, subprocess, sys
 
-OUT = "/tmp/seed/out"
-WT = "/tmp/seed/confirm_wt"
+OUT = os.environ.get("SEED_OUT", "/tmp/seed/out")
+WT = os.environ.get("SEED_WT", "/tmp/seed/confirm_wt")
 KEEP = "/verif/seeded"
 ENV = dict(os.environ, RUSTC_BOOTSTRAP="1", CARGO_NET_OFFLINE="true", RUST_BACKTRACE="0")
 
@@ -75,7 +75,7 @@ def main():
                     print("  -- demo-with-change tail:", o3[-300:].replace("\n", " | "))
     finally:
         subprocess.run("git -C /repo worktree remove --force %s" % WT, shell=True)
-    json.dump(results, open("/tmp/seed/confirm_results.json", "w"), indent=1)
+    json.dump(results, open(os.path.join(os.path.dirname(OUT), "confirm_results.json"), "w"), indent=1)
 
 
 if __name__ == "__main__":
